@@ -193,7 +193,80 @@ class Root(object):
     def dir(self, *args, **kw):      # reached as /dir and /dir/ : trailing_slash tool
         return b'dir'
 
+    # ---- resources that reflect request data into response headers (what a careful application does with
+    # ---- decoded client data: look at it, drop control characters, hand it to the framework's own API)
+    @cherrypy.expose
+    def redir(self, *args, **kw):
+        """HTTPRedirect to a request-derived, relative URL."""
+        to = _careful(kw.get('to'), url=True)
+        if to is None:
+            to = _careful(cherrypy.request.headers.get('X-Next'), url=True)
+        if to is None:
+            raise cherrypy.HTTPRedirect('/plain')
+        raise cherrypy.HTTPRedirect('/plain/' + to, status=_redirect_status(kw.get('status')))
+
+    @cherrypy.expose
+    def echo(self, *args, **kw):
+        """Decoded query/body parameters, request headers and cookies echoed in response headers / cookies."""
+        resp = cherrypy.response
+        req = cherrypy.request
+        n = 0
+        for k in sorted(kw, key=repr)[:4]:
+            v = _careful(kw[k])
+            if v is not None:
+                resp.headers['X-Echo-%d' % n] = v
+                n += 1
+        for name in ('X-Custom', 'User-Agent', 'Referer', 'Accept-Language', 'Origin', 'From'):
+            v = _careful(req.headers.get(name))
+            if v is not None:
+                resp.headers['X-Seen-' + name] = v
+        for name in sorted(req.cookie.keys(), key=repr)[:3]:
+            v = _careful(req.cookie[name].value)
+            if v is not None:
+                resp.cookie['seen'] = v
+                resp.cookie['seen']['path'] = '/'
+        return b'echo'
+
+    @cherrypy.expose
+    def tsx(self, *args, **kw):      # tools.trailing_slash.extra: /tsx/<anything>/ is redirected to /tsx/<anything>
+        return b'tsx'
+
+    @cherrypy.expose
+    def stream(self, *args, **kw):
+        def content():
+            yield b'chunk one '
+            yield b'chunk two'
+        return content()
+    stream._cp_config = {'response.stream': True}
+
+    @cherrypy.expose
+    def combo(self, *args, **kw):
+        cherrypy.session['n'] = cherrypy.session.get('n', 0) + 1
+        return 'combo ' + 'h\xe9llo \u20ac ' * 30
+
+    @cherrypy.expose
+    def vhost(self, *args, **kw):
+        return b'vhost'
+
     rest = Rest()
+
+
+def _careful(v, url=False):
+    """Client text as a careful handler passes it on: a str without control characters, of bounded length, and -
+    where it becomes part of a URL - without the characters that delimit URL components."""
+    if isinstance(v, list):
+        v = v[0] if v else None
+    if not isinstance(v, str) or not v:
+        return None
+    bad = set('/?#[]@:\\ "<>%') if url else set()
+    v = ''.join(c for c in v if ord(c) >= 32 and ord(c) != 127 and c not in bad)[:200]
+    return v or None
+
+
+def _redirect_status(v):
+    if isinstance(v, str) and v in ('300', '301', '302', '303', '307', '308'):
+        return int(v)
+    return None
 
 
 class Dir(object):
@@ -255,11 +328,29 @@ def setup():
         '/referer': {'tools.referer.on': True, 'tools.referer.pattern': r'http://[^/]*example\.com',
                      'tools.referer.accept_missing': True},
         '/rest': {'request.dispatch': cherrypy.dispatch.MethodDispatcher()},
+        '/tsx': {'tools.trailing_slash.extra': True},
+        '/szip': {'tools.staticdir.on': True, 'tools.staticdir.dir': static, 'tools.staticdir.index': 'index.html',
+                  'tools.gzip.on': True, 'tools.gzip.mime_types': ['text/*'], 'tools.encode.on': True,
+                  'tools.etags.on': True},
+        '/psub': {'tools.proxy.on': True},
+        '/osub': {'tools.proxy.on': True, 'tools.proxy.local': 'Origin', 'tools.proxy.scheme': 'X-Forwarded-Ssl'},
+        '/combo': {'tools.sessions.on': True, 'tools.proxy.on': True, 'tools.accept.on': True,
+                   'tools.accept.media': ['text/html', 'text/plain'], 'tools.encode.on': True,
+                   'tools.gzip.on': True, 'tools.gzip.mime_types': ['text/*'], 'tools.etags.on': True,
+                   'tools.etags.autotags': True, 'tools.expires.on': True,
+                   'tools.expires.secs': 0, 'tools.expires.force': True, 'tools.allow.on': True,
+                   'tools.allow.methods': ['GET', 'HEAD', 'POST'], 'tools.response_headers.on': True,
+                   'tools.response_headers.headers': [('X-Static', 'v')], 'tools.ignore_headers.on': True,
+                   'tools.ignore_headers.headers': ('X-Ignore',), 'tools.log_headers.on': True},
+        '/vhost': {'request.dispatch': cherrypy.dispatch.VirtualHost(
+            **{'one.example': '/plain', 'two.example:8080': '/sub', 'localhost:8080': ''})},
     }
     # digest nonces carry a timestamp: a fixed clock for auth_digest keeps every case replayable bit for bit
     auth_digest.time = _FixedClock()
     root = Root()
     root.sub = Dir()
+    root.psub = Dir()
+    root.osub = Dir()
     app = cherrypy.Application(root, '', conf)
     cap = _Capture()
     # failures before the tool hooks exist (process_headers) are not logged by anything: observe the
@@ -324,42 +415,196 @@ def build_environ(case):
     return env
 
 
+class _Hang(BaseException):
+    """Raised by the per-request alarm: the code under test did not answer within REQUEST_TIMEOUT seconds."""
+
+
+REQUEST_TIMEOUT = 20
+
+
+def _on_alarm(signum, frame):
+    raise _Hang()
+
+
 def call(case):
-    """Run one request; returns {'status': int, 'exc': {...}|None, 'escaped': bool}."""
+    """Run one request; returns {'status': int, 'exc': {...}|None, 'escaped': bool, 'headers': [...], 'malformed': str|None}.
+
+    Whatever the code under test does (raise out of the WSGI callable, never call start_response, hand over
+    something that is not a header list, hang) is an observation, not a harness error."""
+    import signal
     st = setup()
     cap = st['cap']
     del cap.seen[:]
     env = build_environ(case)
-    got = {}
+    got = {'calls': 0}
 
     def start_response(status, headers, exc_info=None):
+        got['calls'] += 1
         got['status'] = status
         got['headers'] = headers
         return lambda data: None
 
     escaped = None
+    chunks_ok = True
+    nbody = 0
+    use_alarm = False
     try:
-        it = st['app'](env, start_response)
-        try:
-            for chunk in it:
-                pass
-        finally:
-            if hasattr(it, 'close'):
-                it.close()
+        import threading
+        use_alarm = threading.current_thread() is threading.main_thread()
     except Exception:
-        escaped = describe_exc(*sys.exc_info())
+        use_alarm = False
+    if use_alarm:
+        old = signal.signal(signal.SIGALRM, _on_alarm)
+        signal.setitimer(signal.ITIMER_REAL, REQUEST_TIMEOUT)
+    try:
+        try:
+            it = st['app'](env, start_response)
+            try:
+                for chunk in it:
+                    if not isinstance(chunk, bytes):
+                        chunks_ok = False
+                    else:
+                        nbody += len(chunk)
+            finally:
+                if hasattr(it, 'close'):
+                    it.close()
+        except _Hang:
+            return {'status': 598, 'exc': {'module': 'harness', 'function': 'timeout', 'exc': 'Hang', 'mro': [],
+                                           'msg': 'no answer within %ds' % REQUEST_TIMEOUT, 'netloc': False},
+                    'escaped': True, 'headers': [], 'malformed': None}
+        except Exception:
+            escaped = describe_exc(*sys.exc_info())
+    finally:
+        if use_alarm:
+            signal.setitimer(signal.ITIMER_REAL, 0)
+            signal.signal(signal.SIGALRM, old)
     status = None
     if 'status' in got:
         try:
-            status = int(got['status'][:3])
+            status = int(str(got['status'])[:3])
         except ValueError:
             status = None
     if escaped is not None or status is None:
-        return {'status': 599, 'exc': escaped or (cap.seen[-1] if cap.seen else None), 'escaped': True}
+        return {'status': 599, 'exc': escaped or (cap.seen[-1] if cap.seen else None), 'escaped': True,
+                'headers': [], 'malformed': None}
     exc = None
     if status >= 500:
         exc = cap.seen[-1] if cap.seen else None
-    return {'status': status, 'exc': exc, 'escaped': False}
+    headers, malformed = _wellformed(got, chunks_ok, nbody, case)
+    return {'status': status, 'exc': exc, 'escaped': False, 'headers': headers, 'malformed': malformed}
+
+
+def _wellformed(got, chunks_ok, nbody, case):
+    """The response as far as the WSGI / HTTP framing goes (what the statement's "answered with" presupposes):
+    a status line `NNN reason`, a list of (str, str) header pairs a server can put on the wire (Latin-1, no
+    CR/LF/NUL), bytes chunks.  Returns (headers as list of pairs, None | description of the first defect)."""
+    bad = None
+    status = got.get('status')
+    hdrs = got.get('headers')
+    out = []
+    if not isinstance(status, str) or len(status) < 4 or not status[:3].isdigit() or status[3] != ' ':
+        bad = 'status line %r' % (status,)
+    if not isinstance(hdrs, list):
+        return out, bad or 'headers are %s' % type(hdrs).__name__
+    for item in hdrs:
+        if not (isinstance(item, tuple) and len(item) == 2 and isinstance(item[0], str) and isinstance(item[1], str)):
+            bad = bad or 'header item %r' % (item,)
+            continue
+        k, v = item
+        out.append([k, v])
+        try:
+            k.encode('latin-1')
+            v.encode('latin-1')
+        except UnicodeEncodeError:
+            bad = bad or 'header %s not Latin-1' % k
+        if not k or any(c in k for c in '\r\n\x00: ') or any(c in v for c in '\r\n\x00'):
+            bad = bad or 'header %s carries CR/LF/NUL' % k
+    if not chunks_ok:
+        bad = bad or 'body chunk that is not bytes'
+    return out, bad
+
+
+# ----------------------------------------------------------------------------------------------
+# multi-step cases: earlier requests of the same client, what it learns from their responses
+# ----------------------------------------------------------------------------------------------
+def captures(headers, caps):
+    """What a client remembers from a response: digest challenge, session cookie, validators."""
+    import re
+    for k, v in headers:
+        low = k.lower()
+        if low == 'www-authenticate' and v[:6].lower() == 'digest':
+            for name in ('realm', 'nonce', 'qop', 'algorithm', 'opaque'):
+                m = re.search(r'\b%s="([^"]*)"' % name, v)
+                if m:
+                    caps[name] = m.group(1)
+        elif low == 'set-cookie':
+            m = re.match(r'\s*session_id=([^;]*)', v)
+            if m:
+                caps['sid'] = m.group(1)
+        elif low == 'etag':
+            caps['etag'] = v
+            caps['etagbare'] = v[2:].strip('"') if v.startswith('W/') else v.strip('"')
+        elif low == 'last-modified':
+            caps['lastmod'] = v
+        elif low == 'location':
+            caps['location'] = v
+    return caps
+
+
+DEFAULT_CAPS = {'realm': REALM, 'nonce': '0:0', 'qop': 'auth', 'algorithm': 'MD5', 'opaque': '', 'sid': '0' * 40,
+                'etag': '"0"', 'etagbare': '0', 'lastmod': 'Thu, 01 Jan 1970 00:00:00 GMT', 'location': '/'}
+
+
+def fill(text, caps):
+    if '{{' not in text:
+        return text
+    for k, v in caps.items():
+        text = text.replace('{{%s}}' % k, v)
+    return text
+
+
+def resolve(case, caps):
+    """The request as sent: placeholders filled with what the client learned, digest credentials computed."""
+    from . import c07_gen as gen
+    c = dict(case)
+    c['qs'] = fill(case.get('qs', ''), caps)
+    c['path'] = fill(case['path'], caps)
+    hs = []
+    for h in case.get('headers', []):
+        v = fill(h[1], caps)
+        if len(h) > 2 and h[2] in ('b', 'q'):
+            v = gen.word(v, h[2])             # the value travels as one RFC 2047 encoded word
+        hs.append([h[0], gen.sanitize(v)])
+    spec = case.get('digest')
+    if spec:
+        uri = c['path'] + ('?' + c['qs'] if c['qs'] else '')
+        hs.append(['Authorization', gen.sanitize(gen.build_digest(spec, caps, c['method'], uri))])
+    c['headers'] = hs
+    return c
+
+
+def run_steps(case):
+    """Run the earlier requests of the case (`pre`), then the case itself.  Returns (observation of the last
+    request, list of observations of the earlier ones, the request as actually sent)."""
+    caps = dict(DEFAULT_CAPS)
+    pre_obs = []
+    clock0 = auth_digest.time
+    try:
+        for step in case.get('pre', []):
+            o = call(resolve(step, caps))
+            captures(o.get('headers') or [], caps)
+            pre_obs.append(o)
+        adv = case.get('clock')
+        if adv:
+            class _Later(object):
+                @staticmethod
+                def time():
+                    return float(FIXED_NOW + adv)
+            auth_digest.time = _Later()
+        sent = resolve(case, caps)
+        return call(sent), pre_obs, sent
+    finally:
+        auth_digest.time = clock0
 
 
 def signature(obs):
